@@ -291,9 +291,11 @@ void LVCalc(matrix *X,
     }
     else{
       double conv = calcConvergence(t_, t_old);
-      if(conv < PLSCONVERGENCE || _isnan_(conv)){
+      if(conv < PLSCONVERGENCE || _isnan_(conv) || loop >= PLSMAXITERATIONS){
         /* NaN: the latent variable is not defined (null score vector, e.g.
-         * constant response or exhausted X/Y residuals) and can never converge */
+         * constant response or exhausted X/Y residuals) and can never converge.
+         * Iteration cap: when the residuals are exhausted up to rounding noise
+         * the measure stays finite but never settles. */
         break;
       }
       else{
